@@ -294,6 +294,7 @@ def chain_for(text, mask, body_start, call_pos, name):
         toks.append({"k": "rest", "opt": False})
     else:
         toks.extend(seq_of(init))
+    prev_end, prev_depth = None, None
     op_re = re.compile(r"\b" + re.escape(name) + r"\s*\.\s*(push|extend|extend_from_slice|insert|append|retain|truncate|clear|pop|remove)\s*\(")
     for m in op_re.finditer(text, j, call_pos):
         if mask[m.start()]:
@@ -304,7 +305,16 @@ def chain_for(text, mask, body_start, call_pos, name):
         opt = d > base_depth
         op = m.group(1)
         if op == "push":
-            toks.append(mk(token_of(arg), opt))
+            t = mk(token_of(arg), opt)
+            # `if c { v.push("--opt=a") } else { v.push("--opt=b") }` : one unconditional token `--opt=?`
+            between = squash(text[prev_end:m.start()]) if prev_end is not None else None
+            if (between is not None and re.fullmatch(r"\)?\s*;\s*\}\s*else\s*\{", between) and toks
+                    and toks[-1]["k"] == "lit" and t["k"] == "lit" and "=" in t["s"]
+                    and toks[-1]["s"].split("=", 1)[0] == t["s"].split("=", 1)[0] and prev_depth == d):
+                toks[-1] = {"k": "pat", "s": t["s"].split("=", 1)[0] + "=?", "opt": d - 1 > base_depth}
+            else:
+                toks.append(t)
+            prev_end, prev_depth = close, d
         elif op in ("extend", "extend_from_slice", "append"):
             sub = seq_of(arg, opt)
             for t in sub:
@@ -458,9 +468,10 @@ let args = strip_profile_conflicts(args.to_vec(), profile);
 let Some(command_index) = first_git_subcommand_index(&args) else { return args; };
 let options = profile_options(profile);
 if options.is_empty() { return args; }
+let options_end = args[command_index + 1..].iter().position(|arg| arg == "--").map_or(args.len(), |offset| command_index + 1 + offset);
 let mut out = Vec::with_capacity(args.len() + options.len());
 out.extend(args[..=command_index].iter().cloned());
-for option in options { if !args.iter().any(|arg| arg == option) { out.push((*option).to_string()); } }
+for option in options { if !args[command_index + 1..options_end].iter().any(|arg| arg == option) { out.push((*option).to_string()); } }
 out.extend(args[command_index + 1..].iter().cloned());
 out
 ''')
@@ -577,7 +588,7 @@ def extract_profile_tables():
                 if m1:
                     atoms.append(("exact", m1.group(1)))
                 elif m2:
-                    atoms.append(("prefix", m2.group(1)))
+                    atoms.append(("pref", m2.group(1)))
                 else:
                     raise ExtractError(f"should_drop: unrecognised atom `{atom}`")
             drops[hm.group(1)] = atoms
@@ -658,13 +669,138 @@ def extract_profile_tables():
 # parsed   = bytes of stdout are interpreted by git-ai (split / trimmed / decoded into a value it computes with)
 # unparsed = only success/failure is used, or stdout is passed through verbatim for display / debug logging
 REVIEWED_TEXT = r"""
+src/authorship/range_authorship.rs::range_authorship#0 fetch unparsed
+src/authorship/range_authorship.rs::get_git_diff_stats_for_range#0 diff parsed
+src/authorship/rebase_authorship.rs::batch_read_blob_contents#0 cat-file parsed
+src/authorship/rebase_authorship.rs::get_empty_tree_oid#0 rev-parse parsed
+src/authorship/rebase_authorship.rs::load_commit_metadata_batch#0 cat-file parsed
+src/authorship/rebase_authorship.rs::collect_changed_file_contents_for_commit_pairs#0 diff-tree parsed
+src/authorship/rebase_authorship.rs::walk_commits_to_base#0 merge-base unparsed
+src/authorship/rebase_authorship.rs::walk_commits_to_base#1 rev-list parsed
+src/authorship/rebase_authorship.rs::get_pathspecs_from_commits#0 diff-tree parsed
+src/authorship/rebase_authorship.rs::tracked_paths_match_for_commit_pairs#0 diff-tree parsed
+src/authorship/stats.rs::get_git_diff_stats#0 show parsed
+src/ci/github.rs::get_github_ci_context#0 clone unparsed
+src/ci/github.rs::get_github_ci_context#1 ? unparsed
+src/ci/gitlab.rs::get_gitlab_ci_context#0 clone unparsed
+src/ci/gitlab.rs::get_gitlab_ci_context#1 ? unparsed
+src/ci/gitlab.rs::get_gitlab_ci_context#2 ? unparsed
+src/commands/blame.rs::resolve_blame_abbrev_shas_batched#0 rev-parse parsed
+src/commands/blame.rs::blame_hunks_for_ranges#0 blame parsed   # the stdin branch of the same `let output = if .. else ..`; parsed by parse_blame_line_porcelain
+src/commands/blame.rs::blame_hunks_for_ranges#1 blame parsed
+src/commands/continue_session.rs::from_commit_sha#0 log parsed
+src/commands/continue_session.rs::from_commit_sha#1 log parsed
+src/commands/continue_session.rs::get_commit_diff#0 show unparsed   # verbatim text handed to the resumed agent session (display), only truncated
+src/commands/continue_session.rs::get_git_status_info#0 branch parsed
+src/commands/continue_session.rs::get_git_status_info#1 log unparsed   # `log --oneline -5` copied verbatim into the session context (display)
+src/commands/diff.rs::resolve_commit#0 rev-parse parsed
+src/commands/diff.rs::resolve_parent#0 rev-parse parsed
+src/commands/diff.rs::get_diff_with_line_numbers#0 diff parsed
+src/commands/diff.rs::get_diff_split_by_file#0 diff parsed
+src/commands/diff.rs::format_annotated_diff#0 diff parsed
+src/commands/git_hook_handlers.rs::was_fast_forward_pull#0 reflog parsed
+src/commands/git_hook_handlers.rs::latest_head_reflog_subject#0 reflog parsed
+src/commands/git_hook_handlers.rs::stash_entry_count#0 stash parsed
+src/commands/hooks/cherry_pick_hooks.rs::expand_commit_range#0 rev-list parsed
+src/commands/hooks/cherry_pick_hooks.rs::resolve_commit_sha#0 rev-parse parsed
+src/commands/hooks/fetch_hooks.rs::was_fast_forward_pull#0 reflog parsed
+src/commands/hooks/rebase_hooks.rs::is_ancestor#0 merge-base unparsed
+src/commands/hooks/reset_hooks.rs::is_ancestor#0 merge-base unparsed
+src/commands/hooks/stash_hooks.rs::save_stash_note#0 notes unparsed
+src/commands/hooks/stash_hooks.rs::read_stash_note#0 notes parsed
+src/commands/hooks/stash_hooks.rs::resolve_stash_to_sha#0 rev-parse parsed
+src/commands/prompts_db.rs::get_commits_since#0 log parsed
+src/commands/prompts_db.rs::get_notes_list#0 notes parsed
+src/commands/prompts_db.rs::batch_read_blobs#0 cat-file parsed
+src/commands/search.rs::search_by_commit_range#0 rev-list parsed
+src/commands/status.rs::get_working_dir_diff_stats#0 diff parsed
+src/git/authorship_traversal.rs::batch_read_blobs_with_oids#0 cat-file parsed
+src/git/diff_tree_to_tree.rs::diff_tree_to_tree#0 rev-parse parsed
+src/git/diff_tree_to_tree.rs::diff_tree_to_tree#1 diff parsed
+src/git/refs.rs::notes_add#0 notes unparsed
+src/git/refs.rs::note_blob_oids_for_commits#0 cat-file parsed
+src/git/refs.rs::notes_add_batch#0 rev-parse parsed
+src/git/refs.rs::notes_add_batch#1 fast-import unparsed
+src/git/refs.rs::notes_add_blob_batch#0 rev-parse parsed
+src/git/refs.rs::notes_add_blob_batch#1 fast-import unparsed
+src/git/refs.rs::get_commits_with_notes_from_list#0 rev-list parsed
+src/git/refs.rs::show_authorship_note#0 notes parsed
+src/git/refs.rs::ref_exists#0 show-ref unparsed
+src/git/refs.rs::merge_notes_from_ref#0 notes unparsed
+src/git/refs.rs::copy_ref#0 update-ref unparsed
+src/git/refs.rs::grep_ai_notes#0 grep parsed
+src/git/refs.rs::grep_ai_notes#1 log parsed
+src/git/repository.rs::peel_to_commit#0 rev-parse parsed
+src/git/repository.rs::new_infer_refname#0 for-each-ref parsed
+src/git/repository.rs::is_valid#0 merge-base unparsed
+src/git/repository.rs::is_valid#1 merge-base unparsed
+src/git/repository.rs::is_valid#2 merge-base unparsed
+src/git/repository.rs::length#0 rev-list parsed
+src/git/repository.rs::into_iter#0 rev-list parsed
+src/git/repository.rs::tree#0 rev-parse parsed
+src/git/repository.rs::parent#0 rev-parse parsed
+src/git/repository.rs::parents#0 show parsed
+src/git/repository.rs::summary#0 show parsed
+src/git/repository.rs::body#0 show parsed
+src/git/repository.rs::author#0 show parsed
+src/git/repository.rs::committer#0 show parsed
+src/git/repository.rs::parent_on_refname#0 rev-parse parsed
+src/git/repository.rs::parent_on_refname#1 merge-base unparsed
+src/git/repository.rs::get_path#0 ls-tree parsed
+src/git/repository.rs::content#0 cat-file parsed
+src/git/repository.rs::shorthand#0 rev-parse parsed
+src/git/repository.rs::target#0 rev-parse parsed
+src/git/repository.rs::peel_to_blob#0 rev-parse parsed
+src/git/repository.rs::peel_to_commit#1 rev-parse parsed
+src/git/repository.rs::git#0 ? unparsed   # generic pass-through helper `Repository::git`, #[allow(dead_code)]; the extractor checks it has no callers
+src/git/repository.rs::object_type#0 cat-file parsed
+src/git/repository.rs::head#0 symbolic-ref parsed
+src/git/repository.rs::is_bare_repository#0 rev-parse parsed
+src/git/repository.rs::remotes#0 remote parsed
+src/git/repository.rs::remotes_with_urls#0 remote parsed
+src/git/repository.rs::git_version#0 ? parsed
+src/git/repository.rs::blob#0 hash-object parsed
+src/git/repository.rs::reference#0 update-ref unparsed
+src/git/repository.rs::remote_head#0 symbolic-ref parsed
+src/git/repository.rs::find_reference#0 show-ref unparsed
+src/git/repository.rs::merge_base#0 merge-base parsed
+src/git/repository.rs::merge_trees_favor_ours#0 merge-tree parsed
+src/git/repository.rs::commit_range_on_branch#0 rev-parse parsed
+src/git/repository.rs::commit_range_on_branch#1 rev-parse parsed
+src/git/repository.rs::commit_range_on_branch#2 log parsed
+src/git/repository.rs::commit#0 commit-tree parsed
+src/git/repository.rs::commit#1 rev-parse parsed
+src/git/repository.rs::commit#2 update-ref unparsed
+src/git/repository.rs::revparse_single#0 rev-parse parsed
+src/git/repository.rs::upstream_remote#0 branch parsed
+src/git/repository.rs::resolve_author_spec#0 rev-list parsed
+src/git/repository.rs::resolve_author_spec#1 show parsed
+src/git/repository.rs::references#0 for-each-ref parsed
+src/git/repository.rs::get_file_content#0 show parsed
+src/git/repository.rs::get_all_staged_files_content#0 show parsed
+src/git/repository.rs::list_commit_files#0 diff-tree parsed
+src/git/repository.rs::diff_added_lines#0 diff parsed
+src/git/repository.rs::diff_changed_files#0 diff parsed
+src/git/repository.rs::diff_workdir_added_lines#0 diff parsed
+src/git/repository.rs::diff_workdir_added_lines_with_insertions#0 diff parsed
+src/git/repository.rs::fetch_branch#0 fetch unparsed
+src/git/repository.rs::find_repository#0 rev-parse parsed
+src/git/repository.rs::find_repository#1 rev-parse parsed
+src/git/status.rs::get_staged_filenames#0 diff parsed
+src/git/status.rs::get_staged_and_unstaged_filenames#0 status parsed
+src/git/status.rs::status#0 status parsed
+src/git/sync_authorship.rs::fetch_authorship_notes#0 ls-remote parsed
+src/git/sync_authorship.rs::fetch_authorship_notes#1 ? unparsed   # stdout only goes to debug_log
+src/git/sync_authorship.rs::push_authorship_notes#0 ? unparsed
+src/git/sync_authorship.rs::push_authorship_notes#1 ? unparsed
+src/mdm/ensure_git_symlinks.rs::ensure_git_symlinks#0 ? parsed
 """
 
 
 def load_reviewed():
     res = {}
     for ln in REVIEWED_TEXT.split("\n"):
-        ln = ln.split("#", 1)[0].rstrip() if not ln.lstrip().startswith("#") else ""
+        ln = ln.split(" # ", 1)[0].rstrip() if not ln.lstrip().startswith("# ") else ""
         if not ln.strip():
             continue
         parts = ln.split()
@@ -784,6 +920,13 @@ def extract():
                 c["parsed"], c["reviewed"] = c["heur_parsed"] or r[1], False
             else:
                 c["parsed"], c["reviewed"] = r[1], True
+    # `Repository::git` is reviewed as a dead pass-through helper: it must have no callers
+    for path in source_files():
+        t, m = clean_source(open(path, encoding="utf-8").read())
+        t = blank_test_modules(t, m)
+        if re.search(r"(?:\brepo(?:sitory)?|\bself|\))\s*\.\s*git\s*\(\s*&", t):
+            problems.append(f"{os.path.relpath(path, C.REPO)}: a caller of the pass-through helper Repository::git appeared; "
+                            "its argv must be added to the inventory")
     for k in reviewed:
         if k not in seen:
             problems.append(f"{k}: reviewed call site no longer exists")
